@@ -11,7 +11,7 @@ use serde_json::json;
 use sm9_core::CurveError;
 
 pub fn def() -> PropDef {
-    let mut required = vec![];
+    let mut required = vec!["g1:point-from-chosen-x".to_string()];
     for g in ["G1", "G2"] {
         for rep in ["affine", "libjac", "rescaled"] {
             for par in ["even", "odd"] {
@@ -38,18 +38,21 @@ pub fn def() -> PropDef {
 type Dec<G> = fn(&[u8]) -> Result<<G as Grp>::L, CurveError>;
 type Enc<G> = fn(<G as Grp>::L) -> Vec<u8>;
 
-fn run<G: Grp>(s: &mut Src, info: &mut Info, key: &mut Key, ctx: &Ctx) -> Result<(), Failure> {
+fn run<G: Grp>(s: &mut Src, info: &mut Info, key: &mut Key, ctx: &Ctx, from_x: Option<Pt<G>>) -> Result<(), Failure> {
     let r = zp::r();
     let cat = s.choose(3);
     let k0 = scalar_nonzero(s).k;
     // use P and -P so both parities of y occur for the same x
     let k = if s.bool() { (r - &k0) % r } else { k0 };
-    let p: Pt<G> = point(s, &k, cat)?;
+    let p: Pt<G> = match from_x {
+        Some(pt) => pt,
+        None => point(s, &k, cat)?,
+    };
     let a = p.aff.unwrap();
     let odd = G::b_is_odd(&a.1);
     info.class(format!("cell:{}|{}|{}", G::NAME, p.rep.name(), if odd { "odd" } else { "even" }));
     info.nontrivial = cat != 0 || odd;
-    key.s(G::NAME).big(&p.k).s(&p.how);
+    key.s(G::NAME).big(&p.k).s(&p.how).b(&G::enc_raw(&p.aff.unwrap()));
     if ctx.want_desc {
         info.desc = crate::runner::note(json!({"group": G::NAME, "P": desc_pt(&p), "y_parity": if odd {"odd"} else {"even"}}));
     }
@@ -93,9 +96,17 @@ pub fn check(g: &[u8], ctx: &Ctx) -> Result<Info, Failure> {
     let mut info = Info::default();
     let mut key = Key::new();
     if s.bool() {
-        run::<GA>(&mut s, &mut info, &mut key, ctx)?;
+        // G1 is the whole curve, so points can also be chosen by a boundary x-coordinate
+        let fx = if s.choose(4) == 0 {
+            let c = s.choose(3);
+            info.class("g1:point-from-chosen-x");
+            Some(crate::grp::g1_point_from_x(&mut s, c)?)
+        } else {
+            None
+        };
+        run::<GA>(&mut s, &mut info, &mut key, ctx, fx)?;
     } else {
-        run::<GB>(&mut s, &mut info, &mut key, ctx)?;
+        run::<GB>(&mut s, &mut info, &mut key, ctx, None)?;
     }
     info.key = key.done();
     Ok(info)
